@@ -99,8 +99,14 @@ func c02Large(c *Ctx) {
 		for _, e := range lay.secEnd {
 			boundary[e] = true
 		}
+		// quick tier: the cuts that make the model chew through the whole 1 MiB block (the dominant
+		// cost of the check) go to one reader per run; every reader still sees the cuts inside it
+		heavyKind := uint64(r.Intn(3))
 		for _, kind := range []uint64{0, 1, 2} {
 			for _, k := range cuts {
+				if !c.Thorough && kind != heavyKind && k >= lay.secEnd[1]-4097 && k != lay.secEnd[1]-1 {
+					continue
+				}
 				nb := VN(1)
 				if boundary[k] {
 					nb = VN(0)
@@ -135,6 +141,7 @@ func init() {
 		c02Large(c)
 		c02xBatch(c)
 		c02xEdge(c)
+		c02xVarint(c)
 		nArch := 8 * c.Scale
 		for a := 0; a < nArch; a++ {
 			r := c.R.Fork()
@@ -217,6 +224,7 @@ func init() {
 			if !isV2 {
 				c02xLoaderCases(c, r, payload, lay, blks, orig, false)
 			}
+			c02xSkipCases(c, r, file, base, lay, blks, orig, o, 2)
 		}
 	})
 }
@@ -429,4 +437,213 @@ func c02xEdge(c *Ctx) {
 		}
 	}
 	c02xLoaderCases(c, r, payload, lay, blks, orig, true)
+}
+
+// ---- round 3: SkipNext / mixed walks (kind "c02skip"), multi-byte length varints, both zeof settings ----
+
+// c02xSkipExpect: (ttrunc orig nonboundary nwhole) for file[:k], file = [container front of `base` bytes ++] payload.
+func c02xSkipExpect(orig Val, lay layout, base, k, fileLen int) Val {
+	nb := 1
+	if k == base+lay.hdrEnd || k >= fileLen {
+		nb = 0
+	}
+	nwhole := 0
+	for _, e := range lay.secEnd {
+		if base+e == k {
+			nb = 0
+		}
+		if base+e <= k {
+			nwhole++
+		}
+	}
+	return VL{VT("trunc"), orig, VN(uint64(nb)), VN(uint64(nwhole))}
+}
+
+func c02xSkipSrc(r *RNG, seekable bool) (uint64, int) {
+	if seekable {
+		return pick(r, []uint64{0, 0, 3, 4}), 0
+	}
+	return 2, pick(r, []int{0, 1, 3, 7, 4096})
+}
+
+// c02xSkipCases: the BlockReader driven by SkipNext only and by a random mix of Next and SkipNext, on
+// a seekable and on a plain source, over the intact file and every proper prefix (perCut walks per
+// cut and source class; the first is always SkipNext-only).
+func c02xSkipCases(c *Ctx, r *RNG, file []byte, base int, lay layout, blks []Blk, orig Val, o rOpts, perCut int) {
+	n := len(blks)
+	allSkip := make([]bool, n+2)
+	for k := 0; k <= len(file); k++ {
+		expect := c02xSkipExpect(orig, lay, base, k, len(file))
+		for _, seekable := range []bool{true, false} {
+			for t := 0; t < perCut; t++ {
+				w := allSkip
+				if t > 0 {
+					w = randChoices(r, n+2)
+				}
+				kind, chunk := c02xSkipSrc(r, seekable)
+				if seekable && t == 0 && k%97 == 5 {
+					kind = 1 // *os.File now and then
+				}
+				c02xEmitSkip(c, kind, chunk, o, file[:k], w, expect, n > 0)
+				c.Count("input:skip-prefix")
+			}
+		}
+	}
+}
+
+// c02xReplaceVarint replaces the length varint of section i by the given bytes.
+func c02xReplaceVarint(payload []byte, lay layout, i int, v []byte) []byte {
+	g := append([]byte(nil), payload[:lay.secStart[i]]...)
+	g = append(g, v...)
+	return append(g, payload[lay.cidStart[i]:]...)
+}
+
+// c02xVarint: sections whose length prefix is a 2-byte varint (128..300 bytes) with EVERY prefix
+// (cuts inside the varint included), one section at the 3-byte boundary (16384) cut around its varint,
+// and length prefixes replaced by overflowing / non-minimal varints -- under both settings of
+// ZeroLengthSectionAsEOF, bare and wrapped as CARv2, through Next-only readers, SkipNext-only and
+// mixed walks, and the loaders.  A failed length-prefix read is never a clean end.
+func c02xVarint(c *Ctx) {
+	r := c.R.Fork()
+	mk := func(total int, hk hashKind, version int) Blk {
+		probe := mkCid(version, 0x55, hk.code, hk.len, nil)
+		n := total - probe.ByteLen()
+		if hk.code == 0x00 { // identity: the CID holds the data
+			n = (total - 4) / 2
+		}
+		data := r.Bytes(n)
+		return Blk{mkCid(version, pick(r, codecs), hk.code, hk.len, data), data}
+	}
+	small := genBlock(r, genOpts{maxData: 20})
+	blks := []Blk{
+		mk(128+r.Intn(3), hashKind{0x12, -1}, 1),
+		small,
+		mk(pick(r, []int{129, 200, 255, 256, 300}), pick(r, hashKinds), 1),
+		mk(130+r.Intn(100), hashKind{0x12, -1}, 0),
+	}
+	roots := genRoots(r, blks, false)
+	payload := refPayload(roots, blks)
+	hdrLen := len(refPayload(roots, nil))
+	lay := payloadLayout(nil, payload, blks, hdrLen)
+	orig := blksVal(blks)
+	dpad := uint64(pick(r, []int{0, 1, 7}))
+	v2file := v2Container(payload, dpad, nil)
+	v2base := 51 + int(dpad)
+	emitScan := func(kind uint64, o rOpts, f []byte, expect Val) {
+		hok, hdrs := scanTables(f)
+		in := VL{VN(kind), o.val(), VB(f), hok, hdrs, expect}
+		c.Emit("scan", in, runScanImpl(kind, o, f, r.Bool()), true)
+	}
+	scanExpect := func(base, k, fileLen int) Val {
+		e := c02xSkipExpect(orig, lay, base, k, fileLen).(VL)
+		return VL{e[0], e[1], e[2]}
+	}
+	for _, zeof := range []bool{false, true} {
+		o := defaultROpts
+		o.zeof = zeof
+		// every prefix of the bare CARv1: BlockReader and internal reader (root reader: no such option)
+		for k := 0; k <= len(payload); k++ {
+			for _, kind := range []uint64{0, 1} {
+				emitScan(kind, o, payload[:k], scanExpect(0, k, len(payload)))
+				c.Count("input:varint-prefix")
+			}
+			if !zeof {
+				emitScan(2, o, payload[:k], scanExpect(0, k, len(payload)))
+				c.Count("input:varint-prefix")
+			}
+		}
+		// every prefix of the CARv2 container: BlockReader
+		for k := 0; k <= len(v2file); k++ {
+			emitScan(0, o, v2file[:k], scanExpect(v2base, k, len(v2file)))
+			c.Count("input:varint-prefix-v2")
+		}
+		// SkipNext-only and mixed walks over the same prefixes
+		c02xSkipCases(c, r, payload, 0, lay, blks, orig, o, 2)
+		c02xSkipCases(c, r, v2file, v2base, lay, blks, orig, o, 2)
+		// length prefix of section i replaced by an invalid varint (and by a valid prefix cut short by junk)
+		for i := range blks {
+			l := uint64(blks[i].Cid.ByteLen() + len(blks[i].Data))
+			bad := [][]byte{
+				{0xff, 0xff, 0xff, 0xff, 0xff, 0xff, 0xff, 0xff, 0xff, 0xff},       // overflow (both decoders)
+				{0x80, 0x80, 0x80, 0x80, 0x80, 0x80, 0x80, 0x80, 0x80, 0x02},       // 2^64: overflow
+				{byte(l&0x7f) | 0x80, byte(l>>7&0x7f) | 0x80, 0x00},                 // non-minimal encoding of l
+				{byte(l&0x7f) | 0x80, byte(l>>7&0x7f) | 0x80, 0x80, 0x00},           // non-minimal, longer
+			}
+			for bi, v := range bad {
+				g := c02xReplaceVarint(payload, lay, i, v)
+				expect := VL{VT("trunc"), orig, VN(1)}
+				for _, kind := range []uint64{0, 1} {
+					emitScan(kind, o, g, expect)
+					c.Count("input:bad-length-prefix")
+				}
+				if !zeof {
+					// encoding/binary accepts non-minimal varints: only soundness applies there
+					if bi < 2 {
+						emitScan(2, o, g, expect)
+					} else {
+						// (the oracle tables come from the unmodified payload: the harness's own section
+						// enumerator follows go-varint and stops at the non-minimal prefix)
+						hok, hdrs := scanTables(payload)
+						in := VL{VN(2), o.val(), VB(g), hok, hdrs, VL{VT("none")}}
+						c.Emit("scan", in, runScanImpl(2, o, g, r.Bool()), true)
+					}
+					c.Count("input:bad-length-prefix")
+				}
+				gv2 := v2Container(g, dpad, nil)
+				emitScan(0, o, gv2, expect)
+				c.Count("input:bad-length-prefix")
+				sexp := VL{VT("trunc"), orig, VN(1), VN(uint64(i))}
+				for _, seekable := range []bool{true, false} {
+					for _, f := range [][]byte{g, gv2} {
+						kind, chunk := c02xSkipSrc(r, seekable)
+						w := make([]bool, len(blks)+2)
+						if r.Bool() {
+							w = randChoices(r, len(blks)+2)
+						}
+						c02xEmitSkip(c, kind, chunk, o, f, w, sexp, true)
+						c.Count("input:skip-bad-length-prefix")
+					}
+				}
+			}
+		}
+	}
+	// the loaders (default options) over every prefix of the same archive
+	c02xLoaderCases(c, r, payload, lay, blks, orig, false)
+
+	// one section at the 3-byte varint boundary, cut around and inside its length varint
+	bigTotal := pick(r, []int{16384, 16385, 16500})
+	big := mk(bigTotal, hashKind{0x12, -1}, 1)
+	blks3 := []Blk{small, big, genBlock(r, genOpts{maxData: 20})}
+	roots3 := genRoots(r, blks3, false)
+	payload3 := refPayload(roots3, blks3)
+	lay3 := payloadLayout(nil, payload3, blks3, len(refPayload(roots3, nil)))
+	orig3 := blksVal(blks3)
+	v2file3 := v2Container(payload3, dpad, nil)
+	cuts := []int{lay3.secStart[1], lay3.secStart[1] + 1, lay3.secStart[1] + 2, lay3.cidStart[1], lay3.cidStart[1] + 1,
+		lay3.dataStart[1], lay3.dataStart[1] + 1, lay3.dataStart[1] + bigTotal/2, lay3.secEnd[1] - 1, lay3.secEnd[1], lay3.secEnd[1] + 1, len(payload3)}
+	for _, zeof := range []bool{false, true} {
+		o := defaultROpts
+		o.zeof = zeof
+		for _, k := range cuts {
+			e := c02xSkipExpect(orig3, lay3, 0, k, len(payload3)).(VL)
+			for _, kind := range []uint64{0, 1} {
+				emitScan(kind, o, payload3[:k], VL{e[0], e[1], e[2]})
+				c.Count("input:varint3-prefix")
+			}
+			if !zeof {
+				emitScan(2, o, payload3[:k], VL{e[0], e[1], e[2]})
+				c02xEmitLoad(c, r, uint64(1+r.Intn(2)), r.Bool(), -1, payload3[:k], c02xTruncExpect(orig3, lay3, k), true)
+				c.Count("input:varint3-prefix")
+			}
+			emitScan(0, o, v2file3[:v2base+k], VL{e[0], e[1], e[2]})
+			c.Count("input:varint3-prefix")
+			for _, seekable := range []bool{true, false} {
+				kind, chunk := c02xSkipSrc(r, seekable)
+				c02xEmitSkip(c, kind, chunk, o, payload3[:k], make([]bool, 5), e, true)
+				kind, chunk = c02xSkipSrc(r, seekable)
+				c02xEmitSkip(c, kind, chunk, o, v2file3[:v2base+k], randChoices(r, 5), c02xSkipExpect(orig3, lay3, v2base, v2base+k, len(v2file3)), true)
+				c.Count("input:skip-varint3-prefix")
+			}
+		}
+	}
 }
